@@ -210,6 +210,11 @@ Fault gen_store_fault(Rng &r, const FontImage &fi) {
         f.kind = "SETBYTES"; f.a = {4, i64(hdr >> 24), 5, i64((hdr >> 16) & 0xFF), 6, i64((hdr >> 8) & 0xFF), 7, i64(hdr & 0xFF)};
         return f;
     }
+    if (f.tag == "name" && t.size() >= 18 && r.chance(1, 8)) {
+        // the string storage starts at or behind the end of the table (no string can be read; everything else is in order)
+        static const unsigned off[] = {0, 1, 2, 100, 0xFFFF}; unsigned v = r.chance(1, 5) ? 0xFFFF : unsigned(t.size()) + off[r.below(4)]; if (v > 0xFFFF) v = 0xFFFF;
+        f.kind = "SETBYTES"; f.a = {4, i64(v >> 8), 5, i64(v & 0xFF)}; f.nth = -1; return f;
+    }
     if (f.tag == "name" && t.size() >= 18 && r.chance(1, 5)) {
         // a label whose string is empty: the record is there, its length is 0 (the query succeeds with an empty string, or fails - and keeps nothing)
         unsigned cnt = be16(&t[2]); std::vector<size_t> cand;
